@@ -56,3 +56,97 @@ Theorem C06_iwamoto_index_old_refuted : exists g1 g0, ~ (QArith_base.Qeq g1 (QAr
   iwamoto_index_ok_old (QArith_base.Qmake 0 1) (QArith_base.Qmake 0 1) g1 g0 = false.
 Proof. exact iwamoto_index_old_refuted. Qed.
 Print Assumptions C06_iwamoto_index_old_refuted.
+
+(* ================= result extraction after Newton-Raphson: pypower pfsoln / numba pfsoln / pf_solution_single_slack
+   (model: C06/Pfsoln.v, proofs: C06/PfsolnProofs.v) ================= *)
+From Coq Require Import QArith.
+From PPV Require Import Base.QN Base.QC C06.Pfsoln C06.PfsolnProofs C06.Shift C06.ShiftProofs.
+Local Open Scope Q_scope.
+
+(* all three variants write the same branch flows PF QF PT QT (matrix product vs. the numba CSR loop) *)
+Theorem C06_pfsoln_flows_equal : forall p v w, flows_eq (flows_of v p) (flows_of w p).
+Proof. exact flows_all_equal. Qed.
+Print Assumptions C06_pfsoln_flows_equal.
+
+(* complex power balance of the net: sum of the bus injections = sum of the branch flows + power of the bus shunts *)
+Theorem C06_power_balance : forall p, wf p = true -> ~ p_base p == 0 ->
+  Csum (map (fun k => Cscale (p_base p) (sbus p k)) (seq 0 (nb p))) ==c Cadd (Sbr p) (shunt_c p).
+Proof. exact power_balance. Qed.
+Print Assumptions C06_power_balance.
+
+(* quantitative: slack P (Q) of pf_solution_single_slack minus that of pfsoln = total P (Q) mismatch of the non-slack
+   buses minus the P (Q) of the bus shunts sum_k |V_k|^2 (GS_k - j BS_k); for any V, solved or not *)
+Theorem C06_single_vs_std : forall p, wf p = true -> ~ p_base p == 0 ->
+  fst (slack_single p) - fst (slack_std p false) == re (rest_mis p) - re (shunt_c p) /\
+  snd (slack_single p) - snd (slack_std p false) == im (rest_mis p) - im (shunt_c p).
+Proof. exact single_vs_std. Qed.
+Print Assumptions C06_single_vs_std.
+
+(* under exactly the guard of _get_numba_functions (one generator row, no ZIP loads, no distributed slack, no GS/BS) and
+   for a solved net the fast variant returns the slack P and Q of the general one *)
+Theorem C06_single_eq_std_guarded : forall p ngen dist, wf p = true -> ~ p_base p == 0 -> solved p ->
+  G06s ngen false dist (p_bus p) = true -> slack_eq (slack_single p) (slack_std p false).
+Proof. exact single_eq_std_guarded. Qed.
+Print Assumptions C06_single_eq_std_guarded.
+
+(* the selection picks pf_solution_single_slack exactly under that guard (and numba on) *)
+Theorem C06_select_single_iff : forall numba ngen vdl dist buses,
+  select numba ngen vdl dist buses = VSingle <-> numba = true /\ G06s ngen vdl dist buses = true.
+Proof. exact select_single_iff. Qed.
+Print Assumptions C06_select_single_iff.
+
+(* numba on/off and every option combination: the selected variant gives the slack P/Q of the numba-off pfsoln *)
+Theorem C06_selected_agrees : forall numba vdl dist p, wf p = true -> ~ p_base p == 0 -> solved p ->
+  slack_eq (slack_of (select numba 1 vdl dist (p_bus p)) p vdl) (slack_of VPypower p vdl).
+Proof. exact selected_agrees. Qed.
+Print Assumptions C06_selected_agrees.
+
+(* the shunt conjunct of the guard is necessary: with a bus conductance the fast variant is wrong on a solved net *)
+Theorem C06_single_with_conductance_refuted : exists p, wf p = true /\ ~ p_base p == 0 /\ solved p /\
+  ~ slack_eq (slack_single p) (slack_std p false).
+Proof. exact single_with_conductance_refuted. Qed.
+Print Assumptions C06_single_with_conductance_refuted.
+(* so is the voltage-dependent-load conjunct *)
+Theorem C06_single_with_zip_refuted : exists p, wf p = true /\ ~ p_base p == 0 /\ solved p /\
+  forallb (fun r => qeqb (gs r) 0 && qeqb (bs r) 0) (p_bus p) = true /\ ~ slack_eq (slack_single p) (slack_std p true).
+Proof. exact single_with_zip_refuted. Qed.
+Print Assumptions C06_single_with_zip_refuted.
+
+Example C06_pfsoln_guarded_nonvacuous : wf w_ok = true /\ solved w_ok /\ G06s 1 false false (p_bus w_ok) = true /\
+  select true 1 false false (p_bus w_ok) = VSingle /\ fst (slack_single w_ok) == 1#10 /\ snd (slack_single w_ok) == 1#5.
+Proof. exact guarded_nonvacuous. Qed.
+Print Assumptions C06_pfsoln_guarded_nonvacuous.
+
+(* ================= bfsw: phase-shift post-rotation (model: C06/Shift.v, proofs: C06/ShiftProofs.v) ================= *)
+(* after "fix: bfsw applies the phase shift of a loop-closing transformer only once": for every BFS tree and every set of
+   phase-shifting branches (tree branches or loop-closing ones) the angle that _run_bfswpf adds to a bus is the cumulative
+   shift along the tree path from the root *)
+Theorem C06_bfsw_rotation_is_path_shift : forall root es trafos b, tree_ok root es = true ->
+  rot_impl root es trafos b == path_shift es trafos b.
+Proof. exact rot_eq_path. Qed.
+Print Assumptions C06_bfsw_rotation_is_path_shift.
+
+(* the path shift is the sum over the tree branches whose sub-tree contains the bus (for any branch weights) *)
+Theorem C06_path_shift_as_subtree_sum : forall w root r, ok_rev root r = true -> forall b,
+  path_rev w r b == qsum (map (fun e : edge => if memb b (desc (rev r) (snd e)) then w (fst e) (snd e) else 0) r).
+Proof. exact path_as_sum. Qed.
+Print Assumptions C06_path_shift_as_subtree_sum.
+
+(* the code before the repair was right only when every phase-shifting branch is a branch of the spanning tree (G06t) ... *)
+Theorem C06_bfsw_rotation_old_guarded : forall root es trafos b, tree_ok root es = true -> G06t es trafos = true ->
+  exists r, rot_impl_old root es trafos b = Some r /\ r == path_shift es trafos b.
+Proof. exact rot_old_eq_path. Qed.
+Print Assumptions C06_bfsw_rotation_old_guarded.
+(* ... regression witness: a phase-shifting transformer that closes a loop rotated a sub-tree a second time (-60 instead of
+   -30 degrees) *)
+Theorem C06_bfsw_rotation_old_refuted : exists root es trafos b r, tree_ok root es = true /\
+  rot_impl_old root es trafos b = Some r /\ ~ r == path_shift es trafos b.
+Proof. exact rot_old_chord_refuted. Qed.
+Print Assumptions C06_bfsw_rotation_old_refuted.
+
+Example C06_bfsw_rotation_nonvacuous :
+  let es := [(0, 1); (0, 2); (2, 3)]%nat in let trafos := [(0%nat, 2%nat, 30); (1%nat, 2%nat, 30); (1%nat, 2%nat, 30)] in
+  tree_ok 0 es = true /\ G06t es trafos = false /\ rot_impl 0 es trafos 3 == -30 /\ rot_impl 0 es trafos 1 == 0 /\
+  path_shift es trafos 3 == -30.
+Proof. exact rot_nonvacuous. Qed.
+Print Assumptions C06_bfsw_rotation_nonvacuous.
